@@ -4,8 +4,7 @@ import SslModel.Model.Val
   `create_instruction`), for the FIRST-ORDER EXPRESSION FRAGMENT of the language: literals, variables,
   array and tuple literals, prefix `!` / `-`, `&&` / `||`, the scalar binary operators, indexing and tuple
   access on non-union operands, `if` / `else`, `if x: T = e` (run-time type tests), `match` (type, value and default arms with
-  the coverage test), blocks and `:=` declarations.  Everything else (functions, calls, cells, loops, structs, slices,
-  iterators) answers `unsup` - the fragment is what the
+  the coverage test), blocks and `:=` declarations.  Everything else (functions, calls, cells, loops, structs, iterators) answers `unsup` - the fragment is what the
   evaluator-level soundness theorem (Thm/C01Eval) is about.
 
   Sources: instruction/{array,tuple,prefix_op,unary_operation,bin_op,bin_op/math/add,bin_op/bitwise,at,
@@ -88,6 +87,11 @@ def armKinds : List Arm → List ArmKind
   | .val _ _ :: rest => .value :: armKinds rest
   | .other _ :: rest => .other :: armKinds rest
 
+/-- a slice bound, when present, has exactly the type int -/
+def boundOk : Option Ty → Bool
+  | none => true
+  | some t => eqv t .int
+
 mutual
 def tyOf : TEnv → Expr → Res Ty
   | _, .litBool _ => .ok .bool
@@ -137,6 +141,19 @@ def tyOf : TEnv → Expr → Res Ty
       match els with
       | some el => (tyOf g el).bind fun tl => okW (concat tb tl)
       | none => okW (concat tb .void)
+  | g, .arrayRepeat v n => (tyOf g v).bind fun tv => (tyOf g n).bind fun tn =>
+      -- `[v; n]`: the length's type must match int; `[typeof v]`
+      if !sub tn .int then .ill else
+      if !eqv tn .int then .unsup else okW (.arr tv)
+  | g, .slice a st en sp => (tyOf g a).bind fun ta =>
+      -- `a[start:stop:step]`: the operand must be indexable, every present bound an int; the operand's own type
+      (tyOfOpt g st).bind fun ts => (tyOfOpt g en).bind fun te => (tyOfOpt g sp).bind fun tp =>
+      if !canBeIndexed ta then .ill else
+      if !(boundOk ts && boundOk te && boundOk tp) then .ill else
+      match ta with
+      | .arr _ => okW ta
+      | .str => .ok .str
+      | _ => .unsup
   | g, .matchE e arms =>
       -- `Match::create_instruction`: the arms must cover the scrutinee's static type; the type is the join of the arms'
       (tyOf g e).bind fun te => (tyOfArms g arms).bind fun tys =>
@@ -153,6 +170,9 @@ def tyOfArms : TEnv → List Arm → Res (List Ty)
       (tyOfList g cands).bind fun _ => (tyOf g body).bind fun tb => (tyOfArms g rest).bind fun ts => .ok (tb :: ts)
   | g, .other body :: rest =>
       (tyOf g body).bind fun tb => (tyOfArms g rest).bind fun ts => .ok (tb :: ts)
+def tyOfOpt : TEnv → Option Expr → Res (Option Ty)
+  | _, none => .ok none
+  | g, some e => (tyOf g e).bind fun t => .ok (some t)
 def tyOfList : TEnv → List Expr → Res (List Ty)
   | _, [] => .ok []
   | g, e :: es => (tyOf g e).bind fun t => (tyOfList g es).bind fun ts => .ok (t :: ts)
